@@ -92,12 +92,16 @@ def gen_w(rng, kind, n):
         vals = [rng.random() for _ in range(3)]
         return [rng.choice(vals) for _ in range(n)]
     if kind == "uniform":
-        c = rng.choice([1.0, 1e-200, 1e200, 0.3])
+        c = rng.choice([1.0, 1e-200, 1e200, 0.3, 1e-300, 1e300])
         return [c] * n
     if kind == "zeros":
         w = [rng.random() if rng.random() < 0.6 else 0.0 for _ in range(n)]
         w[0] = w[0] or 0.5
         return w
+    if kind == "huge":
+        return [rng.uniform(0.5, 1.0) * 1e290 for _ in range(n)]
+    if kind == "tiny":
+        return [rng.uniform(0.5, 1.0) * 1e-290 for _ in range(n)]
     raise ValueError(kind)
 
 
@@ -115,12 +119,14 @@ def exact_ess(w):
 
 def check_ess(run, tier, rng):
     from tempest.tools import compute_ess, effective_sample_size
-    kinds = ["dirichlet_tiny", "dirichlet", "geometric", "onehot_dust", "ties", "uniform", "zeros"]
-    reps = 140 if tier == "quick" else 2000
+    kinds = ["dirichlet_tiny", "dirichlet", "geometric", "onehot_dust", "ties", "uniform", "zeros", "huge", "tiny"]
+    reps = 144 if tier == "quick" else 2000
     small = []
     for t in range(reps):
         kind = kinds[t % len(kinds)]
         n = rng.choice([1, 2, 3, 5, 17, 100, 1000] if tier == "quick" else [1, 2, 3, 5, 17, 100, 1000, 10000])
+        if kind in ("huge", "tiny"):
+            n = min(n, 100)
         w = gen_w(rng, kind, n)
         run.count(f"ess:{kind}")
         arr = np.array(w, dtype=float)
@@ -130,6 +136,10 @@ def check_ess(run, tier, rng):
         if arr.tobytes() != before.tobytes():
             run.fail("ess-mutates-input", "effective_sample_size modified its argument", w=w[:8])
         ex = exact_ess(w)
+        if not math.isfinite(e):
+            run.fail("ess-not-finite", f"effective_sample_size returned {e!r} for a non-negative weight vector with positive sum "
+                     f"(exact value {float(ex)!r})", n=n, w=[float(x).hex() for x in w[:20]], kind=kind)
+            continue
         if not (abs(Fraction(e) - ex) <= ex * Fraction(1, 10 ** 9)):
             run.fail("ess-wrong-value", f"effective_sample_size={e!r}, exact (sum w)^2/sum w^2={float(ex)!r}",
                      n=n, w=[float(x).hex() for x in w[:20]], kind=kind)
@@ -138,7 +148,7 @@ def check_ess(run, tier, rng):
         c = rng.choice([2.0, 0.125, 1e-8, 1e8, 3.7])
         if max(w) * c < 1e300 and min(x for x in w if x > 0) * c > 1e-290:
             e2 = float(effective_sample_size(arr * c))
-            if abs(e2 - e) > 1e-9 * e:
+            if not math.isfinite(e2) or abs(e2 - e) > 1e-9 * e:
                 run.fail("ess-not-scale-invariant", f"ESS(w)={e}, ESS({c}*w)={e2}", n=n, c=c,
                          w=[float(x).hex() for x in w[:20]])
         if kind == "uniform" and abs(e - n) > 1e-9 * n:
